@@ -43,9 +43,11 @@ func (o c05Op) String() string {
 }
 
 type c05Fault struct {
-	idx   int
-	errno syscall.Errno
-	short bool
+	idx    int
+	errno  syscall.Errno
+	short  bool
+	noop   bool // WriteAt reports success without writing
+	sticky bool // from call idx on, every call of the same operation fails (disk full, read-only file system)
 }
 
 type c05Result struct {
@@ -63,12 +65,18 @@ type c05Result struct {
 var c05Seq int
 
 // c05Run executes the scenario in a fresh directory under the given fault plan.
-func c05Run(t *rapid.T, base string, ops []c05Op, faults []c05Fault) *c05Result {
+func c05Run(t *rapid.T, base string, weekends string, ops []c05Op, faults []c05Fault) *c05Result {
 	c05Seq++
 	env := c03Setup(base, c05Seq, true)
 	f := &file{}
 	defer env.teardown(f)
-	os.Remove(filepath.Join(telemetry.Default.LocalDir(), "weekends")) // let the library create it (more calls to fail)
+	// the state the directory is found in: week-end setting missing (the library creates it), valid, empty, blank or garbage
+	wpath := filepath.Join(telemetry.Default.LocalDir(), "weekends")
+	if weekends == "missing" {
+		os.Remove(wpath)
+	} else {
+		os.WriteFile(wpath, []byte(weekends), 0666)
+	}
 	now := time.Date(2024, 3, 4, 12, 0, 0, 0, time.UTC)
 	CounterTime = func() time.Time { return now }
 	res := &c05Result{begun: map[string]uint64{}, extra: map[string]uint64{}, hit: make([]bool, len(faults))}
@@ -77,11 +85,17 @@ func c05Run(t *rapid.T, base string, ops []c05Op, faults []c05Fault) *c05Result 
 	ctl.KeepLog = true
 	ctl.TickBudget = 2_000_000
 	ctl.IntnFn = func(n int) int { return 3 % n }
+	stickyOp := map[int]string{}
 	ctl.Plan = func(c *vhook.Call) {
 		for i, fl := range faults {
-			if c.Idx == fl.idx {
+			if fl.sticky && c.Idx == fl.idx {
+				stickyOp[i] = c.Op
+			}
+			if c.Idx == fl.idx || (fl.sticky && c.Idx > fl.idx && stickyOp[i] == c.Op) {
 				res.hit[i] = true
-				if fl.short && (strings.Contains(c.Op, "Write")) {
+				if fl.noop && c.Op == "File.WriteAt" {
+					c.Noop = true
+				} else if fl.short && (strings.Contains(c.Op, "Write")) {
 					c.Short = true
 				} else {
 					c.Inject = fl.errno
@@ -177,6 +191,12 @@ func c05Scenario(t *rapid.T) ([]c05Op, bool) {
 	if rapid.Bool().Draw(t, "openFirst") {
 		ops = append(ops, c05Op{kind: "open"})
 	}
+	if rapid.IntRange(0, 2).Draw(t, "fillPage") == 0 {
+		// four 4000-byte names: the fourth does not fit into the first page, the file has to grow
+		for _, nm := range names[2:6] {
+			ops = append(ops, c05Op{kind: "add", name: nm, n: 1})
+		}
+	}
 	for i := 0; i < n; i++ {
 		k := rapid.SampledFrom([]string{"add", "add", "add", "add", "open", "rotate", "read", "rmfile", "rmdir", "setmode"}).Draw(t, "op")
 		op := c05Op{kind: k}
@@ -201,11 +221,12 @@ func TestVerifC05Faults(t *testing.T) {
 	thorough := os.Getenv("VERIF_TIER") == "thorough"
 	rapid.Check(t, func(t *rapid.T) {
 		ops, deletes := c05Scenario(t)
-		clean := c05Run(t, base, ops, nil)
+		weekends := rapid.SampledFrom([]string{"missing", "missing", "3\n", "3\n", "", " \n", "x", "\x00"}).Draw(t, "weekends")
+		clean := c05Run(t, base, weekends, ops, nil)
 		c05Judge(t, "fault-free run", ops, clean, !deletes && clean.undecodable == 0)
 		n := len(clean.calls)
 		vstats.NoteMax("max_calls_per_scenario", int64(n))
-		desc := fmt.Sprintf("ops=%v calls=%d", ops, n)
+		desc := fmt.Sprintf("weekends=%q ops=%v calls=%d", weekends, ops, n)
 		runs := 0
 		// singles: every call x every errno (+ short write)
 		for i := 0; i < n; i++ {
@@ -220,7 +241,7 @@ func TestVerifC05Faults(t *testing.T) {
 				} else {
 					fl.short = true
 				}
-				res := c05Run(t, base, ops, []c05Fault{fl})
+				res := c05Run(t, base, weekends, ops, []c05Fault{fl})
 				runs++
 				what := fmt.Sprintf("call #%d %s(%s) failing with %v (short=%v)", i, clean.calls[i].Op, filepath.Base(clean.calls[i].Arg), fl.errno, fl.short)
 				c05Judge(t, what, ops, res, !deletes && res.undecodable == 0 && !fl.short)
@@ -236,12 +257,35 @@ func TestVerifC05Faults(t *testing.T) {
 				vstats.Case(desc+" | "+what, res.hit[0] && changed, "single:"+clean.calls[i].Op)
 			}
 		}
+		// persistent failures: from call i on, every call of that operation fails (ENOSPC / EROFS)
+		for i := 0; i < n; i++ {
+			for _, e := range []syscall.Errno{syscall.ENOSPC, syscall.EROFS} {
+				res := c05Run(t, base, weekends, ops, []c05Fault{{idx: i, errno: e, sticky: true}})
+				runs++
+				what := fmt.Sprintf("every %s from call #%d on failing with %v", clean.calls[i].Op, i, e)
+				c05Judge(t, what, ops, res, !deletes && res.undecodable == 0)
+				vstats.Case(desc+" | "+what, res.hit[0], "sticky:"+clean.calls[i].Op)
+			}
+		}
+		// a file system that reports successful writes but does not extend the file (go.dev/issue/68311)
+		for i := 0; i < n; i++ {
+			if clean.calls[i].Op != "File.WriteAt" {
+				continue
+			}
+			for _, sticky := range []bool{false, true} {
+				res := c05Run(t, base, weekends, ops, []c05Fault{{idx: i, noop: true, sticky: sticky, errno: syscall.EIO}})
+				runs++
+				what := fmt.Sprintf("WriteAt #%d (sticky=%v) reporting success without writing", i, sticky)
+				c05Judge(t, what, ops, res, false)
+				vstats.Case(desc+" | "+what, res.hit[0], "noop-write")
+			}
+		}
 		// pairs (i<j) with j ranging over the calls of the execution after fault i
 		type pair struct{ i, j int }
 		var pairs []pair
 		if thorough {
 			for i := 0; i < n; i++ {
-				first := c05Run(t, base, ops, []c05Fault{{idx: i, errno: syscall.EIO}})
+				first := c05Run(t, base, weekends, ops, []c05Fault{{idx: i, errno: syscall.EIO}})
 				for j := i + 1; j < len(first.calls); j++ {
 					pairs = append(pairs, pair{i, j})
 				}
@@ -256,7 +300,7 @@ func TestVerifC05Faults(t *testing.T) {
 		for k, p := range pairs {
 			e1 := c05Errnos[(p.i+k)%len(c05Errnos)]
 			e2 := c05Errnos[(p.j+2*k)%len(c05Errnos)]
-			res := c05Run(t, base, ops, []c05Fault{{idx: p.i, errno: e1}, {idx: p.j, errno: e2}})
+			res := c05Run(t, base, weekends, ops, []c05Fault{{idx: p.i, errno: e1}, {idx: p.j, errno: e2}})
 			runs++
 			what := fmt.Sprintf("calls #%d and #%d failing with %v and %v", p.i, p.j, e1, e2)
 			c05Judge(t, what, ops, res, !deletes && res.undecodable == 0)
